@@ -67,7 +67,7 @@ Definition win_len (eps : Z) (w : win) : option Z :=
 Inductive amode := ALoose | AStrict | ACenter.
 Definition samples (w : win) (d : Z) (m : amode) : Z :=
   match m with
-  | AStrict => fdiv (d - w_dur w) (w_step w) + 1
+  | AStrict => Z.max 0 (fdiv (d - w_dur w) (w_step w) + 1)   (* after the repair of F12: never negative *)
   | ALoose => fdiv (d + w_dur w) (w_step w)
   | ACenter => rhe d (w_step w)
   end.
